@@ -1,7 +1,7 @@
 /-
   oracle_c18 — line-protocol driver for the C18 model (Model/NetParse.lean).
   Requests (byte strings hex, "-" = empty):
-    h <fixed:0|1> <cmd> <ntx|-1> <authgot:0|1> <authorized:0|1> <payload>
+    h <fixed:0|1> <cmd> <ntx|-1> <authgot:0|1> <authorized:0|1> <trusted:0|1> <payload>
         -> <out> L=<locks> S=<steps>
     f <fixed:0|1> <haskey:0|1> <versionreceived:0|1> <magic> <wire>
         -> <out> L=<locks> S=<steps>
@@ -33,16 +33,18 @@ def showRes (r : Res) : String :=
 def newTxI (b : Bytes) : Option (Nat × Nat) :=
   (Wire.decodeTx b).map fun (t, n) => (t.ins.length, n)
 
+def bit? (s : String) : Option Bool :=
+  if s == "1" then some true else if s == "0" then some false else none
+
 def step (_ : Unit) (toks : List String) : Unit × String :=
   let bad := ((), "bad-op")
   match toks with
-  | ["h", fx, cmd, ntx, ag, au, pl] =>
-    match Hex.decode pl, ntx.toInt? with
-    | some pl, some ntx =>
-      let fixed := fx == "1"
+  | ["h", fx, cmd, ntx, ag, au, tr, pl] =>
+    match Hex.decode pl, ntx.toInt?, bit? fx, bit? ag, bit? au, bit? tr with
+    | some pl, some ntx, some fixed, some ag, some au, some tr =>
       let E : Env := { txSize := Wire.txSize, newTx := newTxI,
                        ntx := if ntx < 0 then none else some ntx.toNat,
-                       authGot := ag == "1", authorized := au == "1" }
+                       authGot := ag, authorized := au, pendingGetData := none, trusted := tr }
       let r :=
         if fixed then parse E cmd pl
         else if cmd = "version" then handleVersionG false pl
@@ -51,7 +53,7 @@ def step (_ : Unit) (toks : List String) : Unit × String :=
         else if cmd = "cmpctblock" then processCmpctBlockG false E.txSize pl
         else parse E cmd pl
       ((), showRes r)
-    | _, _ => bad
+    | _, _, _, _, _, _ => bad
   | ["f", fx, hk, vr, magic, w] =>
     match Hex.decode magic, Hex.decode w with
     | some magic, some w =>
